@@ -64,8 +64,8 @@ chk("C07", "nopanic", "exploration",
     "Oracle is 'returns a value or an error within the allocation and time bounds'; values are not judged here. Inputs outside the enumerated deviation bound are not explored. Allocation bound: peak live bytes <= 8 x input + 4 KiB per parser call, single request <= 1 GiB.",
     "deviation-bounded exhaustive enumeration of hostile inputs under a fault-observing supervisor", "DESIGN.md 5/C07")
 chk("C08", "tzif", "exploration",
-    "Independent writer: 1728 zone shapes (counts, designation pools with shared/overlapping/empty strings, indicator layouts, 32/64-bit extreme times, footers) encoded as v1/v2/v3 with a different zone in the 32-bit block of v2+ files, decoded zone compared with TimeZone::new(expected parts); independent reader: all 1796 corpus files (fat + slim, incl. right/ and v3); every corruption class of the property applied to the synthesised files must be rejected (error kind compared where the class determines it).",
-    "Trusted: the independent writer/reader (RFC 8536) and the TZ-string recogniser. One slim corpus file (America/Ojinaga as produced by this image's zic) violates RFC 8536 3.3 (footer inconsistent with last transition) and is expected to be refused (C13); it is listed in evidence. A footer truncated to a single newline is not judged.",
+    "Independent writer: 1728 zone shapes (counts, designation pools with shared/overlapping/empty strings, indicator layouts, 32/64-bit extreme times, footers) encoded as v1/v2/v3 with a different zone in the 32-bit block of v2+ files, decoded zone compared with TimeZone::new(expected parts); independent reader: all 1796 corpus files (fat + slim, incl. right/ and v3); every corruption class of the property applied to the synthesised files must be rejected (error kind compared where the class determines it); every truncation and 6 byte values at every offset of the corpus files (1.0 M mutants quick) decoded by both the implementation and the independent reader, which must agree on acceptance and on the decoded zone; well-formed files with up to 300 000 transitions / 1000 leap records / 256 types.",
+    "Trusted: the independent writer/reader (RFC 8536) and the TZ-string recogniser. One slim corpus file (America/Ojinaga as produced by this image's zic) violates RFC 8536 3.3 (footer inconsistent with last transition) and is expected to be refused (C13); it is listed in evidence. Finding KF4 (single-newline footer accepted) was repaired by /repo commit 80cdbde; every truncation incl. every cut inside the footer is judged.",
     "bounded exhaustive enumeration of file shapes and single-field corruptions against an independent codec", "DESIGN.md 5/C08")
 chk("C09", "tzstr", "model_checking",
     "Reference recogniser (recursive descent, states = recogniser steps) vs the implementation on: every string of <=6 (7) symbols over an 18-symbol TZ alphabet, alone and behind 11 grammar prefixes (<=5 (6) symbols); 178k sentences of a bounded grammar (names x offsets x DST parts x 17 day notations^2 x 12 times^2 x trailing); all one-edit (two-edit for the shortest) deviations of 30 core sentences; each through three decoding paths (settings = extensions off, v2 footer = off, v3 footer = on); accept/reject and the decoded zone must match.",
@@ -117,7 +117,7 @@ manifest = {
     ],
     "checks": [CHECKS[k] for k in sorted(CHECKS)],
     "not_applicable": [{"property_id": p, "reason": NOT_YET} for p in ALL if p not in CHECKS],
-    "notes": "Exit codes: 0 held, 1 violation (VIOLATION line), >=2 machinery failure. Known findings: /verif/known_findings.json (KF2 open; KF1 fixed by /repo commit d153b13, KF3 by 02bcb6c). Seeded changes and which checks catch them: /verif/seeded/*/meta.json and DESIGN.md section 8.",
+    "notes": "Exit codes: 0 held, 1 violation (VIOLATION line), >=2 machinery failure. Known findings: /verif/known_findings.json (KF2 open; KF1 fixed by /repo commit d153b13, KF3 by 02bcb6c, KF4 by 80cdbde). Seeded changes and which checks catch them: /verif/seeded/*/meta.json and DESIGN.md section 8.",
 }
 json.dump(manifest, open(os.path.join(HERE, "MANIFEST.json"), "w"), indent=1)
 print("claimed:", sorted(CHECKS))
